@@ -72,6 +72,7 @@ func raceLogSize(prefix string) int64 {
 }
 
 func (c13) Run(c *run.Ctx, phase, idx int) {
+	c.Concurrent(true)
 	r := rng(c.Env, "C13", phase, idx)
 	t := gen.AllTypes[idx%len(gen.AllTypes)]
 	if r.Chance(1, 3) {
@@ -136,7 +137,9 @@ func (c13) Run(c *run.Ctx, phase, idx int) {
 	bad := make([]string, N)
 	start := make(chan struct{})
 	var wg sync.WaitGroup
-	c.Current(func() string { return fmt.Sprintf("concurrent read-only operations on a shared %s (N=%d, GOMAXPROCS=%d)", T, N, procs) })
+	c.Current(func() string {
+		return fmt.Sprintf("concurrent read-only operations on a shared %s (N=%d, GOMAXPROCS=%d)", T, N, procs)
+	})
 	for g := 0; g < N; g++ {
 		wg.Add(1)
 		go func(g int) {
